@@ -105,7 +105,7 @@ theorem atom_noParen (ops : List Op) (lp rp : Op) (hF : FullTable ops lp rp) (x 
       rw [startsOp_of_mem ops lp hF.lpM 40 [] hF.lpS] at h; exact Bool.noConfusion h
     · intro e; subst e
       rw [startsOp_of_mem ops rp hF.rpM 41 [] hF.rpS] at h; exact Bool.noConfusion h
-  · subst h; decide
+  · rcases h with h | h <;> subst h <;> decide
 
 theorem atom_plain (ops : List Op) (lp rp : Op) (hF : FullTable ops lp rp) (x : Bytes) (hx : AtomOK ops x)
     (h44 : (44 : Nat) ∉ x) (h36 : (36 : Nat) ∉ x) : Plain x := by
